@@ -257,6 +257,23 @@ def check(run, res):
         res.violate("extend-no-recur-next-pass", "doer %d added to scheduler %d by extend did not recur in the scheduler's next pass "
                     "(trace %d..%d)" % (x, sid, p1, p2))
         return
+    # a scheduler that ends because it is done ends when its last doer has completed, including the ones added at runtime:
+    # nobody who was not removed is force-closed at the end.  (A DoDoer that completed shows `clean`; a Doist run without a
+    # limit that returned completed too.)
+    ended_done = set(e[1] for e in tr if e[0] == "clean" and prog["nodes"].get(e[1], {}).get("kind") == "dodoer")
+    if prog["limit"] is None and run.result == ("return",):
+        ended_done.add(-1)
+    for sid_ in sorted(ended_done):
+        b = next((k for k in range(n) if tr[k][0] == "exit_begin" and tr[k][1] == sid_), None)
+        if b is None:
+            continue
+        e_ = next((k for k in range(b, n) if tr[k][0] == "exit" and tr[k][1] == sid_), n)
+        cut = [tr[k][1] for k in range(b, e_) if tr[k][0] == "cease"]
+        res.comparisons += 1
+        if cut:
+            res.violate("ended-with-live-doers", "scheduler %s completed (nothing interrupted it) while its doers %s were "
+                        "still running: they were force-closed at its exit" % (sid_, cut))
+            return
     # final membership
     res.comparisons += 1
     if run.final["doers"] != member[-1]:
